@@ -218,7 +218,6 @@ type c15WaitCase struct {
 
 type c15WaitRes struct {
 	c15Res
-	ErrOut       string
 	Late         float64 // seconds between the context becoming done and the return, when the call returned on its own
 	Released     bool    // the watchdog fired: stdin was released
 	StdinBlocked bool    // … and at that moment a Read on Config.Stdin had been in progress for a second or more
@@ -613,6 +612,14 @@ func c15ReportWaitStream(c *vh.Ctx, ws *c15WaitStream) {
 			c.Fail(vh.Failure{Kind: "oracle", Finding: "G15-1",
 				What: "the call does not return after the context is done while a command started by system() / cmd | getline holds a non-file Config.Stdin whose Read blocks; it returned the right result as soon as the reader was released",
 				Case: wc, Got: got(r), Want: want})
+		case o.re != nil && c15IsG151(wc, o.st, *o.re):
+			// the first run missed the bound without the reader's Read having been in progress for a second (under heavy load the
+			// copy goroutine starts late); re-run alone it shows the pattern of the known finding
+			c.Hit("wait:G15-1")
+			c.Hit("wait:G15-1-on-re-run")
+			c.Fail(vh.Failure{Kind: "oracle", Finding: "G15-1",
+				What: "the call does not return after the context is done while a command started by system() / cmd | getline holds a non-file Config.Stdin whose Read blocks; it returned the right result as soon as the reader was released",
+				Case: wc, Got: got(*o.re), Want: want})
 		default:
 			// missed the bound, not of the G15-1 class
 			if msg := c15WaitVerdict(wc, r); msg != "" {
@@ -689,8 +696,12 @@ func c15WaitCorrespondence(c *vh.Ctx, ws *c15WaitStream) {
 		c.Trace()
 		c.Hit("correspondence:wait-state")
 		f := strings.Fields(a)
-		metBound := !o.r.Released || (o.re != nil && !o.re.Released && !o.re.Hung)
-		stuckObserved := o.r.Released && o.r.StdinBlocked && !o.r.NeededKill && !metBound
+		last := o.r
+		if o.re != nil {
+			last = *o.re
+		}
+		metBound := !last.Released && !last.Hung
+		stuckObserved := last.Released && last.StdinBlocked && !last.NeededKill
 		bad := ""
 		switch {
 		case len(f) == 2 && f[0] == "stuck":
